@@ -36,7 +36,7 @@ def py():
   from pyglove.core.utils import value_location as vl, hierarchical as hi
   return vl, hi
 
-ALPHABET = ['.', '[', ']', '-', '0', '7', 'a', '²', 'é', '\U0001d4b3', ' ', "'", '"', '$', '٣', 'b', '1']
+ALPHABET = ['.', '[', ']', '-', '0', '7', 'a', '²', 'é', '\U0001d4b3', ' ', "'", '"', '$', '٣', 'b', '1', '１', '+', '_', '\t']
 
 # ---- conversion between Python values and wire trees ------------------------------------------------
 def ekey(k):
@@ -91,20 +91,33 @@ def impl_parse(s):
   except Exception as e:
     return [1, 92, estr(type(e).__name__)]
 
-def impl_arith(op, p, q):
+def arg_form(q, rng):
+  """The same path as another accepted argument form (KeyPath | printed string | int); equivalent by the round trip."""
+  vl, _ = py()
+  Q = vl.KeyPath(list(q))
+  if rng is None: return Q
+  r = rng.random()
+  if r < 0.3 and all(key_ok(k) for k in q): return str(Q)
+  if r < 0.5 and len(q) == 1 and isinstance(q[0], int): return q[0]
+  if r < 0.55 and not q: return None
+  return Q
+
+def impl_arith(op, p, q, rng=None):
   vl, _ = py()
   P, Q = vl.KeyPath(list(p)), vl.KeyPath(list(q))
   try:
-    if op == 0: return [0, epath((P + Q).keys)]
+    if op == 0: return [0, epath((P + arg_form(q, rng)).keys)]
     if op == 1:
       try:
-        return [0, epath((P - Q).keys)]
+        return [0, epath((P - arg_form(q, rng)).keys)]
       except ValueError as e:
         return [1, 1 if 'is an ancestor of' in str(e) else 2 if 'different subtree' in str(e) else 93]
     if op == 2:
       try: return [0, epath(P.parent.keys)]
       except KeyError: return [1, 0]
-    if op == 3: return [0, int(P.is_relative_to(Q))]
+    if op == 3:
+      a = arg_form(q, rng)
+      return [0, int(P.is_relative_to(Q if a is None else a))]
     if op == 4: return [0, int(P < Q)]
     if op == 5: return [0, int(P <= Q)]
     if op == 6: return [0, int(P > Q)]
@@ -115,11 +128,25 @@ def impl_arith(op, p, q):
       except KeyError: return [1, 0]
     if op == 10: return [0, int(P == str(Q))]
     if op == 11: return [0, len(P)]
+    if op == 12: return [0, int(P < str(Q))]
+    if op == 13: return [0, int(P <= str(Q))]
+    if op == 14: return [0, int(P > str(Q))]
+    if op == 15: return [0, int(P >= str(Q))]
+    if op == 16:
+      try:
+        return [0, epath(vl.KeyPath.parse(str(Q), parent=P).keys)]
+      except ValueError as e:
+        m = str(e)
+        return [1, 10 if 'unmatched close' in m else 11 if 'unmatched open' in m else 12 if 'invalid literal' in m else 95]
+    if op == 17:
+      if len(q) == 1 and rng is not None and rng.random() < 0.5 and not isinstance(q[0], (list, tuple)):
+        return [0, epath(vl.KeyPath(q[0], P).keys)]
+      return [0, epath(vl.KeyPath(list(q) if rng is None or rng.random() < 0.5 else tuple(q), P).keys)]
   except Exception as e:
     return [1, 94, estr(type(e).__name__)]
   raise ValueError(op)
 
-def impl_set(ops):
+def impl_set(ops, form_rng=None):
   vl, _ = py()
   K = vl.KeyPath
   regs = [vl.KeyPathSet(), vl.KeyPathSet(), vl.KeyPathSet()]
@@ -128,6 +155,9 @@ def impl_set(ops):
   for code, r, r2, r3, p, fl in ops:
     try:
       P = K(list(p))
+      if code in (0, 1, 2, 3, 4, 16) and form_rng is not None:
+        P = arg_form(p, form_rng)
+        if P is None: P = K()
       if code == 0: o = [0, int(regs[r].add(P, include_intermediate=bool(fl)))]
       elif code == 1: o = [0, int(regs[r].remove(P))]
       elif code == 2: o = [0, int(P in regs[r])]
@@ -164,6 +194,13 @@ def impl_lookup(p, v):
   vl, _ = py()
   try:
     return [0, epv(vl.KeyPath(list(p)).query(v))]
+  except Exception as e:
+    return eerr(e)
+
+def impl_exists(p, v):
+  vl, _ = py()
+  try:
+    return [0, int(bool(vl.KeyPath(list(p)).exists(v)))]
   except Exception as e:
     return eerr(e)
 
@@ -251,8 +288,8 @@ def impl_merge(d, s):
     return eerr(e)
 
 # ---- generators ------------------------------------------------------------------------------------
-INTS = list(range(-12, 13)) + [100, -100, 10 ** 12, -(10 ** 12), 255, 1000]
-PLAIN = ['a', 'b', '0', '7', '1', '-', 'é', '\U0001d4b3', ' ', "'", '"', '$', '²', '٣', '-1', '00', 'a b', '10', '15', '2', '-0', '٣5']
+INTS = list(range(-12, 13)) + [100, -100, 10 ** 12, -(10 ** 12), 255, 1000, 2 ** 64, -(2 ** 63) - 1, 99, 101]
+PLAIN = ['+1', '1_0', ' 5', '１２', '٣１', 'a', 'b', '0', '7', '1', '-', 'é', '\U0001d4b3', ' ', "'", '"', '$', '²', '٣', '-1', '00', 'a b', '10', '15', '2', '-0', '٣5']
 
 def gen_str(rng, ok_only=False):
   for _ in range(50):
@@ -264,6 +301,12 @@ def gen_str(rng, ok_only=False):
       s = rng.choice(['', 'a', '0', '-']) + '[' + inner + ']' + rng.choice(['', 'b', '.', '7'])
     elif r < 0.60:
       s = rng.choice(['.', '..', 'a.b', '.a', 'a.', '0.7', '-.', '[0]', '[-1]', '[a]', '[]', '[[]]', '[.]', 'a[0].b', '[²]'])
+    elif r < 0.64:
+      d = rng.randint(2, 5)                  # deep bracket nesting
+      s = '[' * d + rng.choice(['', 'a', '0', '.', '-1']) + ']' * d + rng.choice(['', 'x'])
+    elif r < 0.68:
+      s = ''.join(rng.choice('ab0.[]-é') for _ in range(rng.choice([17, 33, 65, 130])))   # long keys
+      if ok_only and not key_ok(s): s = s.replace('[', '(').replace(']', ')')
     else:
       s = ''.join(rng.choice(ALPHABET) for _ in range(rng.randint(0 if not ok_only else 1, 5)))
     if not ok_only or key_ok(s):
@@ -277,7 +320,10 @@ def gen_key(rng, ok_only=False, p_int=0.35):
 
 def gen_path(rng, ok_only=False, maxlen=6):
   n = rng.choice([0, 1, 1, 2, 2, 3, 3, 4, 5, maxlen])
-  return [gen_key(rng, ok_only) for _ in range(min(n, maxlen))]
+  n = min(n, maxlen)
+  if maxlen >= 6 and rng.random() < 0.04:
+    n = rng.choice([8, 9, 12, 17, 33])       # long paths
+  return [gen_key(rng, ok_only) for _ in range(n)]
 
 def gen_path_string(rng):
   vl, _ = py()
@@ -299,7 +345,11 @@ def gen_set_ops(rng, allow_dollar=True):
   keys = [k for k in SET_KEYS if allow_dollar or k != '$']
   if rng.random() < 0.5:
     keys = [k for k in keys if k != '$']     # half of the sequences never meet the marker
-  pool = [[rng.choice(keys) for _ in range(rng.choice([0, 1, 1, 2, 2, 3]))] for _ in range(rng.randint(3, 7))]
+  depths = [0, 1, 1, 2, 2, 3] if rng.random() < 0.8 else [2, 3, 4, 5, 6]
+  pool = [[rng.choice(keys) for _ in range(rng.choice(depths))] for _ in range(rng.randint(3, 7))]
+  if rng.random() < 0.3:                     # chains: every prefix of one long path
+    long = [rng.choice(keys) for _ in range(rng.randint(3, 6))]
+    pool += [long[:i] for i in range(len(long) + 1)]
   ops = []
   n = rng.randint(3, 14)
   for _ in range(n):
@@ -329,21 +379,25 @@ def gen_leaf(rng):
 def gen_value(rng, depth, int_keys=0.15):
   if depth <= 0 or rng.random() < 0.25:
     return gen_leaf(rng)
+  wide = rng.random() < 0.06
   if rng.random() < 0.45:
-    return [gen_value(rng, depth - 1, int_keys) for _ in range(rng.randint(1, 3))]
+    n = rng.choice([5, 8, 11, 12, 13, 21]) if wide else rng.randint(1, 3)
+    return [gen_value(rng, depth - 1 if not wide else min(depth - 1, 1), int_keys) for _ in range(n)]
   d = {}
   r = rng.random()
   if r < int_keys / 2:                      # a perfect-range int-keyed dict (canonicalize turns it into a list)
     for i in rng.sample(range(3), rng.randint(1, 3)):
       pass
-    n = rng.randint(1, 3)
+    n = rng.randint(1, 3) if rng.random() < 0.8 else rng.choice([10, 11, 12])
     order = list(range(n)); rng.shuffle(order)
     for i in order: d[i] = gen_value(rng, depth - 1, int_keys)
     return d
-  for _ in range(rng.randint(1, 3)):
+  if rng.random() < 0.08:                    # exactly the fields of the pg.Object class used by the symbolic variant
+    return {'x': gen_value(rng, depth - 1, int_keys), 'y': gen_value(rng, depth - 1, int_keys)}
+  for _ in range(rng.choice([5, 8, 12]) if wide else rng.randint(1, 3)):
     k = gen_key(rng, ok_only=True, p_int=int_keys)
     if isinstance(k, int) and abs(k) > 1000: k = 5
-    d[k] = gen_value(rng, depth - 1, int_keys)
+    d[k] = gen_value(rng, depth - 1 if not wide else min(depth - 1, 1), int_keys)
   return d
 
 def nodes_of(v, path=()):
@@ -364,10 +418,10 @@ def gen_flat_dict(rng, depth=2):
   """Input for canonicalize: dicts whose keys are path strings (valid, conflicting or malformed)."""
   d = {}
   base = rng.choice(['a', 'b', 'a.b', 'x'])
-  for _ in range(rng.randint(1, 4)):
+  for _ in range(rng.randint(1, 4) if rng.random() < 0.85 else rng.randint(8, 14)):
     r = rng.random()
     if r < 0.5:
-      k = base + rng.choice(['', '.c', '[0]', '[1]', '[2]', '.c.d', '[0].e', '[-1]', '[5]', '[x.y]', '.0'])
+      k = base + rng.choice(['', '.c', '[0]', '[1]', '[2]', '.c.d', '[0].e', '[-1]', '[5]', '[x.y]', '.0', '[10]', '[9]', '[11]', '[3]', '[4]', '[1].e', '[10].e', '[2][0]', '[-2]'])
     elif r < 0.8:
       k = gen_path_string(rng)
     else:
@@ -554,6 +608,27 @@ def oracle_value(v, sym=False):
         break
       if name == 'pg.traverse' and p.keys:
         if e[2] is not vl.KeyPath(p.keys[:-1]).get(v): bad('C10/traverse/parent-argument/' + name, 'parent passed to the visitor is not the container at the parent path')
+  # symbolic containers: sym_path of every node is the reported path; rebind-by-function (get_rebind_dict addresses the
+  # updates through printed paths) changes exactly the selected nodes
+  if sym:
+    try:
+      wrong = []
+      def chk(p, x, par):
+        if isinstance(x, pg.Symbolic) and not same_keys(x.sym_path.keys, p.keys): wrong.append((p.keys, x.sym_path.keys))
+        return pg.TraverseAction.ENTER
+      pg.traverse(v, chk)
+      if wrong: bad('C10/symbolic/sym-path-differs-from-traversal-path', 'node reported at %r has sym_path %r' % wrong[0])
+      if keys_all_ok(plain(v)) and isinstance(v, pg.Symbolic):
+        isint = lambda x: isinstance(x, int) and not isinstance(x, bool)
+        def mapv(x):
+          if isinstance(x, dict): return {k: mapv(y) for k, y in x.items()}
+          if isinstance(x, list): return [mapv(y) for y in x]
+          return x + 1000 if isint(x) else x
+        v2 = v.clone(deep=True)
+        v2.rebind(lambda k, x: x + 1000 if isint(x) else x, raise_on_no_change=False)
+        if plain(v2) != mapv(plain(v)): bad('C10/rebind-by-function/result', 'rebind(fn) gives %r' % (plain(v2),))
+    except Exception as e:
+      bad('C10/rebind-by-function/raises-' + type(e).__name__, 'sym_path / rebind(fn) raised %s: %s' % (type(e).__name__, str(e)[:100]))
   # pg.query: selecting everything and entering returns every node under its printed path
   if keys_all_ok(plain(v)):
     try:
@@ -610,6 +685,75 @@ def to_sym(v):
   if isinstance(v, dict): return pg.Dict(v)
   if isinstance(v, list): return pg.List(v)
   return v
+
+_NODE_CLS = []
+def node_cls():
+  import pyglove as pg
+  if not _NODE_CLS:
+    class C10Node(pg.Object):
+      x: pg.typing.Any(default=None)
+      y: pg.typing.Any(default=None)
+    _NODE_CLS.append(C10Node)
+  return _NODE_CLS[0]
+
+def to_sym_obj(v):
+  """Like to_sym, but a dict with exactly the keys x, y becomes a pg.Object with these two fields."""
+  import pyglove as pg
+  if isinstance(v, dict):
+    if list(v) == ['x', 'y']:
+      return node_cls()(x=to_sym_obj(v['x']), y=to_sym_obj(v['y']))
+    return pg.Dict({k: to_sym_obj(x) for k, x in v.items()})
+  if isinstance(v, list): return pg.List([to_sym_obj(x) for x in v])
+  return v
+
+def has_xy(v):
+  if isinstance(v, dict): return list(v) == ['x', 'y'] or any(has_xy(x) for x in v.values())
+  if isinstance(v, list): return any(has_xy(x) for x in v)
+  return False
+
+def oracle_objects(v):
+  """Traversal / lookup / query clauses on a tree that contains pg.Object nodes (oracle only; not modelled)."""
+  import pyglove as pg
+  vl, _ = py()
+  hits = []
+  vt = epv(v)
+  def bad(sig, msg): hits.append((sig, msg, dict(kind='objects', value_tr=vt, shown=repr(v)[:300])))
+  try:
+    sv = to_sym_obj(copy.deepcopy(v))
+  except Exception:
+    return hits
+  def expect_nodes(x, path=()):
+    out = [(list(path), x)]
+    if isinstance(x, dict):
+      for k, y in x.items(): out += expect_nodes(y, path + (k,))
+    elif isinstance(x, list):
+      for i, y in enumerate(x): out += expect_nodes(y, path + (i,))
+    elif isinstance(x, pg.Object):
+      for k, y in x.sym_items(): out += expect_nodes(y, path + (k,))
+    return out
+  try:
+    expect = expect_nodes(sv)
+    log = []
+    ok = pg.traverse(sv, lambda p, x, par: log.append((p, x, par)) or pg.TraverseAction.ENTER)
+    if not ok: bad('C10/traverse/returns-false/pg.traverse-objects', 'traverse returned False')
+    if len(log) != len(expect) or any(not same_keys(e[0].keys, x[0]) or e[1] is not x[1] for e, x in zip(log, expect)):
+      bad('C10/traverse/not-every-node-once/pg.traverse-objects', '%d nodes, %d visits' % (len(expect), len(log)))
+    for p, x, par in log:
+      try:
+        if p.query(sv) is not x: bad('C10/lookup/reported-path-returns-other-node/pg.traverse-objects', 'path %r' % (p.keys,)); break
+      except Exception as e:
+        bad('C10/lookup/reported-path-not-found/object-%s' % (key_kind(p.keys[-1]) if p.keys else 'root'), 'path %r: %s' % (p.keys, e)); break
+      if isinstance(x, pg.Symbolic) and not same_keys(x.sym_path.keys, p.keys):
+        bad('C10/symbolic/sym-path-differs-from-traversal-path/objects', 'node reported at %r has sym_path %r' % (p.keys, x.sym_path.keys)); break
+    if keys_all_ok(v):
+      res = pg.query(sv, custom_selector=lambda k, x: True, enter_selected=True)
+      if len(res) != len(expect): bad('C10/query/select-all-count/objects', '%d nodes, %d results' % (len(expect), len(res)))
+      for ks, x in expect:
+        s = str(vl.KeyPath(list(ks)))
+        if s not in res or res[s] is not x: bad('C10/query/select-all-misses-node/objects', 'node at %r' % (ks,)); break
+  except Exception as e:
+    bad('C10/traverse/raises/objects-' + type(e).__name__, 'raised %s: %s' % (type(e).__name__, str(e)[:100]))
+  return hits
 
 OPN = ['add', 'remove', 'contains', 'has_prefix', 'rebase', 'clear', 'update', 'difference_update', 'intersection_update',
        'union', 'difference', 'intersection', 'copy', 'eq', 'bool', 'iter', 'subtree', 'keypath_add']
@@ -819,8 +963,8 @@ def run(ctx):
     triples.append((a, b, c))
   for a, b, c in triples:
     for (p, q) in ((a, b), (b, c), (c, a)):
-      for op in range(12):
-        add([3, op, epath(p), epath(q)], impl_arith(op, p, q), 'arith', nontrivial_keys(p + q) or op in (1, 4, 5, 6, 7), dict(op='arith', code=op, p=p, q=q))
+      for op in range(18):
+        add([3, op, epath(p), epath(q)], impl_arith(op, p, q, rng), 'arith', nontrivial_keys(p + q) or op in (1, 4, 5, 6, 7), dict(op='arith', code=op, p=p, q=q))
       oracle_jobs.append((oracle_arith, (p, q)))
     ctx.hist('order_pair_kinds', pair_kind(a, b))
     oracle_jobs.append((oracle_order, (a, b, c)))
@@ -829,7 +973,7 @@ def run(ctx):
   for _ in range(ctx.scale(700, 12000)):
     seqs.append(gen_set_ops(rng))
   for ops in seqs:
-    out, _ = impl_set(ops)
+    out, _ = impl_set(ops, rng)
     for o in ops: ctx.hist('set_ops', OPN[o[0]])
     ctx.hist('set_outcome', 'raises' if (out[0] and out[0][-1] == [-2]) else 'ok')
     add([5, int(dollar), [[c, r, r2, r3, epath(p), fl] for c, r, r2, r3, p, fl in ops]], out, 'set', len(ops) >= 3, dict(op='KeyPathSet ops', ops=ops))
@@ -856,6 +1000,7 @@ def run(ctx):
       out = impl_lookup(p, v)
       ctx.hist('lookup_outcomes', 'value' if out[0] == 0 else ['KeyError', 'ValueError', 'IndexError', 'TypeError'][out[1]] if out[1] < 4 else 'other')
       add([20, epath(p), vt], out, 'lookup', nt or out[0] == 1, dict(op='query', path=p, value=repr(v)[:200]))
+      add([28, epath(p), vt], impl_exists(p, v), 'exists', nt or out[0] == 1, dict(op='exists', path=p, value=repr(v)[:200]))
     root = gen_path(rng, maxlen=2) if rng.random() < 0.3 else []
     sp = root + list(rng.choice(nodes)[0]) if rng.random() < 0.4 else None
     so = root + list(rng.choice(nodes)[0]) if rng.random() < 0.3 else None
@@ -886,6 +1031,8 @@ def run(ctx):
     add([26, 0, sparse, vt], impl_canon_flatten(0, sparse, v), 'canonicalize(flatten)', nt, dict(op='canonicalize(flatten(v, False))', sparse_list_as_dict=bool(sparse), value=repr(v)[:200]))
     oracle_jobs.append((oracle_value, (v, False)))
     if sv is not None: oracle_jobs.append((oracle_value, (sv, True)))
+    if sv is not None and has_xy(v):
+      oracle_jobs.append((oracle_objects, (v,))); ctx.hist('object_trees', 'with pg.Object nodes')
   # (F) canonicalize on path-keyed dicts (valid, conflicting, malformed), merge_tree
   for _ in range(ctx.scale(500, 8000)):
     d = gen_flat_dict(rng)
@@ -931,6 +1078,7 @@ def replay(ctx, rp):
   elif k == 'arith': hits = oracle_arith(c['p'], c['q'])
   elif k == 'order': hits = oracle_order(c['a'], c['b'], c['c'])
   elif k == 'set': hits = oracle_set(c['ops'])
+  elif k == 'objects': hits = oracle_objects(dpv(c['value_tr']))
   elif k == 'value':
     v = dpv(c['value_tr'])
     hits = oracle_value(to_sym(v) if c.get('sym') else v, bool(c.get('sym')))
